@@ -224,7 +224,7 @@ def _oracle_doc(arg):
         where = 'root %r' % str(node)[:24]
         for kind, q in qs:
             if kind == 'empty':
-                want = []
+                want = [x for x in below if x.name == '']      # only the command of a trailing lone backslash has it
             elif kind in ('name', 'absent'):
                 if not plain(q):
                     bump('skipped_not_a_plain_name')
